@@ -540,7 +540,11 @@ func fuseLookup(c *Case, l *live, files []mktor.File, offsets []int64, viol func
 func runFuseConc(c *Case, out *Out) {
 	setup()
 	viol := func(key, what string) {
-		out.Violations = append(out.Violations, Viol{"C02", key, fmt.Sprintf("%s (read A pieces %d+%d, read B pieces %d+%d, piece %d arrives late)", what, c.A.Off, c.A.N, c.B.Off, c.B.N, c.M)})
+		prop := "C02"
+		if c.Route == "C01" {
+			prop = "C01"
+		}
+		out.Violations = append(out.Violations, Viol{prop, key, fmt.Sprintf("%s (read A pieces %d+%d, read B pieces %d+%d, piece %d arrives late)", what, c.A.Off, c.A.N, c.B.Off, c.B.N, c.M)})
 	}
 	const ps = 2 * CS
 	// reads are not piece aligned: they start 5000 bytes into their first piece and are n pieces long minus a bit
